@@ -1,5 +1,7 @@
 import Srtla.Model.Sys
+import Srtla.Model.Arm
 import Srtla.Drv.Util
+import Srtla.Drv.LinkCc
 /-! Driver for the `sys` component: the sender shell, one event per line (C01, C08, C09, C10, C14). -/
 namespace Srtla.Drv.SysDrv
 open Srtla Srtla.Sys Srtla.Link Srtla.Conn Srtla.Rtt Srtla.Drv
@@ -234,8 +236,22 @@ structure DS where
   unmodelled : Bool := false
   /-- how many uplinks have been created in this case so far (canonical conn ids are 1, 2, … in creation order) -/
   created : Nat := 0
+  /-- op `hkarm`: the weak-link filter and the per-link CC controller the event loop owns (`Model/Arm.lean`) -/
+  cls : Srtla.Classifier.State := Srtla.Classifier.State.init
+  ctl : Srtla.LinkCc.Ctl Float := []
 
 def emptyD : DS := { s := empty }
+
+/-- The extra observation of op `hkarm`: the classification result, the snapshot map (sorted by conn id; a
+`HashMap` has no order), the `cc_backing_off` flags (the dump does not print them). -/
+def showArm (res : Srtla.Classifier.Result) (ctl : Srtla.LinkCc.Ctl Float) (ls : List L) : String :=
+  let cls := ";".intercalate (res.perLink.map fun o =>
+    s!"{o.id}:{showBool o.weak}:{o.reason.name}:{o.share}:{o.threshold}")
+  let keys := sortNat ((ls.map fun (l : L) => l.core.connId).eraseDups)
+  let cc := ";".intercalate (keys.filterMap fun id =>
+    (ctl.get id).map fun st => toString id ++ ":" ++ Srtla.Drv.LinkCc.showSnap "," (Srtla.LinkCc.snapshot st))
+  let ccb := ",".intercalate (ls.map fun (l : L) => showBool l.ccBackingOff)
+  s!" | arm[sel={res.selectedDelay} est={res.estimatedMaxDelay} cls=[{cls}] cc=[{cc}] ccb=[{ccb}]]"
 
 def stepD (d : DS) (toks : List String) : DS × String :=
   if d.unmodelled then (d, "unmodelled") else
@@ -250,6 +266,21 @@ def stepD (d : DS) (toks : List String) : DS × String :=
   | ["liveloop", _] =>
     -- the harness runs the REAL event loop against a fake receiver in real time; monitors only
     (d, "liveloop-ok")
+  | ["hkarm", now] =>
+    -- the housekeeping arm up to and including the stamping loop: `Arm.hkArm` (sync_conn_timeout,
+    -- handle_housekeeping, classify, tick_all, stamp) at the views of the real code
+    match now.toNat? with
+    | some now =>
+      let f : Srtla.Arm.Full Float Float := { sys := d.s, cls := d.cls, ctl := d.ctl }
+      let r := Srtla.Arm.hkArm Srtla.Arm.viewsF f now
+      -- the classification result the arm computed (printed; `hkArm` keeps only the filter state)
+      let res := (Srtla.Classifier.classify d.cls
+        (Srtla.Arm.clsTick Srtla.Arm.viewsF (Srtla.Arm.afterHk d.s now).1.links)).2
+      if res.perLink.any (·.panicked) then (d, "PANIC") else
+      ({ d with s := r.1.sys, cls := r.1.cls, ctl := r.1.ctl },
+       showOut (r.1.sys.links.map fun (l : L) => l.core.connId) r.2 ++ " | " ++ showSys r.1.sys ++
+         showArm res r.1.ctl r.1.sys.links)
+    | none => (d, "bad-op")
   | ["reload", now, addrs, fails] =>
     -- the tail of the housekeeping arm after a SIGHUP: the real `apply_connection_changes`
     match now.toNat?, parseNatList addrs, parseNatList fails with
@@ -263,7 +294,9 @@ def stepD (d : DS) (toks : List String) : DS × String :=
     | _, _, _ => (d, "bad-op")
   | ["init", n, _, _] =>
     let (s', o) := step d.s toks
-    ({ d with s := s', created := if o == "bad-op" then d.created else n.toNat?.getD 0 }, o)
+    if o == "bad-op" then ({ d with s := s' }, o) else
+    -- start-up: a fresh filter and a fresh controller next to the fresh connections
+    ({ d with s := s', created := n.toNat?.getD 0, cls := Srtla.Classifier.State.init, ctl := [] }, o)
   | _ => let (s', o) := step d.s toks; ({ d with s := s' }, o)
 
 end Srtla.Drv.SysDrv
